@@ -17,9 +17,11 @@ ASSUME = [
     "posting lists handed to the merge nodes are strictly ascending; NOT borders satisfy lo >= 1 in reverse "
     "order and hi+1 < 2^32 (guaranteed by getLIDsBorders: minLID >= 1, maxLID < Len())",
     "one fraction per search (the cross-fraction merge of seq.MergeQPRs belongs to C16/C19)",
+    "PARTIAL: the composition theorem search_model = search_spec is not proved (nodes, OR-fold, borders, LID table "
+    "and the limit/total loop are); the equation is evaluated on every generated request instead",
 ]
 RULE = ("random trees of real merge nodes (AND/OR/NAND/NOT, depth <= 4, both directions) over shaped static "
-        "posting lists; BuildORTree over 0-9 lists; random corpora (1-40 docs, a few of 300-1500 / 1000-6000, equal "
+        "posting lists; BuildORTree over 0-9 lists; random corpora (1-40 docs, a few of 300-1500 (quick) / 1000-3000 plus two sealed ones above 4096 IDs (thorough), equal "
         "MIDs, extreme RIDs, 1-4 out-of-order bulks with a search in between) in real active / sealed / "
         "sealed-and-reloaded fractions, 8-12 requests each (boolean trees with NOT at any depth over literal, "
         "prefix, suffix leaves; [from,to] around the stored MIDs incl. 0 and 2^64-1 and from>to; both orders; "
